@@ -227,6 +227,17 @@ def fault_part(ctx):
                     ctx.count('fault_' + k)
                 ctx.count('calls_compared', compare_with_twin(ctx, res, w))
                 ctx.count('runs_single_fault' if len(faults) == 1 else ('runs_fault_pair' if faults else 'runs_fault_free'))
+                if 'disable' in faults.values():
+                    # from the kill switch on the decorators are pure pass-through: the framework no longer calls the service's data
+                    # handlers for calls made afterwards on the same thread
+                    evs = res.live.journal.events
+                    off = [i for i, e in enumerate(evs) if e['ev'] == 'recording_disabled']
+                    if off:
+                        ctx.count('runs_switched_off_in_flight_inspected')
+                        late = [e for e in evs[off[0] + 1:] if e['ev'] == 'handler' and e.get('thread', 'main') == evs[off[0]].get('thread', 'main')]
+                        if late:
+                            ctx.violation('after recording was switched off in mid-operation the framework still ran the service\'s data handler (%s of %s): '
+                                          'the decorators are not pure pass-through' % (late[0].get('what'), late[0].get('decl')), w)
                 if 'disable' in faults.values() or idx % 7 == 0:
                     # the recorder lives on: recording is switched on again and the service is invoked once more
                     res2 = fr.execute(prog, {}, recorder=res.recorder, spy=res.spy, box=res.box)
